@@ -7,7 +7,7 @@ explanation, shrink_s."""
 import os, glob
 
 PROPS = {}
-for _f in sorted(glob.glob(os.path.join(os.path.dirname(os.path.abspath(__file__)), "props.d", "C*.py"))):
+for _f in sorted(glob.glob(os.path.join(os.path.dirname(os.path.abspath(__file__)), "props.d", "[CTX]*.py"))):
     _ns = {}
     exec(open(_f).read(), _ns)
     PROPS[os.path.basename(_f)[:-3]] = _ns["CFG"]
